@@ -47,7 +47,8 @@ LEVEL_TEXT = ("Lean 4 theorems over the executable model of get_manifest_for_ran
               "leaves reach every rank with their saved entry, private leaves reach exactly the rank that saved them, merged "
               "sharded entries hold every saved shard and reach exactly the requesting ranks, containers keep kind and the "
               "surviving keys in saved order. Tied to the real functions on every run by differential correspondence on "
-              "synthesised and real gathered manifests; the rule is also evaluated on the real restore.")
+              "synthesised and real gathered manifests; the rule is also evaluated on the real restore."
+              " At byte level (C07_world_replicated_everywhere) the consolidated entry of a replicated leaf is the same through every rank's view, ranks >= W included, and restores the saved value although its chunks were written by different ranks.")
 LEVEL_NOTE = ("Trusted: Lean kernel, the hand model lean/TsModel/ManifestOps.lean, the harness. Known finding kept: a rank that "
               "did not save a sharded tensor receives it under the escaped path component instead of the original key.")
 TECHNIQUE = "Lean 4 proof over executable model + differential correspondence with manifest_ops.py + rule oracle on real take/restore"
